@@ -74,6 +74,18 @@ func main() {
 		}
 		r.Set("removal_family_cases", cases)
 	}
+	// long-history churn: one tree, tens of thousands of operations (behaviour keyed to a count of
+	// operations), with and without duplicates
+	for _, dups := range []bool{false, true} {
+		var tr func(any)
+		if ev.Tracing() {
+			tr = ev.Trace
+		}
+		if msg, rp := avlh.Churn(ev.Pick(r, 60000, 600000), 97, dups, false, tr); msg != "" {
+			r.Report(ev.Violation{Sig: "family|churn", Msg: msg, Replay: rp})
+		}
+	}
+	r.Set("churn_family_operations", 2*ev.Pick(r, 60000, 600000))
 	r.Set("states", states)
 	r.Set("transitions", trans)
 	r.Set("traces_validated_against_impl", trans)
